@@ -891,6 +891,7 @@ func (env *specEnv) ghost(name string, targs []ast.Expr, e *ast.CallExpr) SV {
 				btype := env.info.Types[fl.Type.Params.List[0].Type].Type
 				if bs := x.enc.sortOf(btype); bs == x.enc.isz() {
 					cc := c
+					cc.st = env.st.clone() // the state the fact was assumed in (later execution mutates env.st)
 					x.assumedForalls = append(x.assumedForalls, func(v Term) Term {
 						c2 := cc
 						c2.bound = map[string]Term{}
